@@ -55,6 +55,9 @@ func VerifH15aQualification() {
 	}
 	enabledBefore := tc.Enabled
 	cfg := &SiteConfig{Addr: Address{Original: hc.host, Scheme: scheme, Host: hc.host, Port: port}, TLS: tc}
+	if verifrt.Bool("bind-public-address") {
+		cfg.ListenHost = "203.0.113.5" // binding to a public interface does not change what the host qualifies for
+	}
 	cfgs := []*SiteConfig{cfg}
 	markQualifiedForAutoHTTPS(cfgs)
 	if err := enableAutoHTTPS(cfgs, false); err != nil {
@@ -209,7 +212,13 @@ func VerifH15cRedirectHandler() {
 	if verifrt.Bool("query") {
 		q = "k=v"
 	}
-	r := &http.Request{Method: "GET", Host: rawHost, URL: &url.URL{Path: p, RawQuery: q}, Header: http.Header{}}
+	u := &url.URL{Path: p, RawQuery: q}
+	if verifrt.Bool("encoded-slash") {
+		// the client wrote /a%2Fb: the same spelling must come back in the Location
+		u = &url.URL{Path: "/a/b", RawPath: "/a%2Fb", RawQuery: q}
+		p = "/a%2Fb"
+	}
+	r := &http.Request{Method: "GET", Host: rawHost, URL: u, Header: http.Header{}}
 	w := &zzRW15{}
 	h.ServeHTTP(w, r)
 	want := "https://" + host
